@@ -90,7 +90,7 @@ func init() {
 	Registry["C20"] = Spec{
 		Fn:          c20,
 		Level:       "exploration",
-		Rule:        "sub-spaces enumerated per chunk: every Date (65536) and every Date32 day 1900-01-01..2299-12-31 x fixed zones x 3 local times; DateTime boundaries+strided (quick) / all 2^32 (thorough); DateTime64 p=0..9 boundary/random instants of the documented range; wide-int From*/accessor pairs on boundary+random; IPv4 strided (quick) / all 2^32 (thorough); Interval.Add against an independent civil calendar; the time conversions again through the column methods (ColDateTime64 p=0..9 Append / AppendArr / Array().Append / Row with a location, ColDateTime, ColDate, ColDate32 Append / AppendArr) against arithmetic of the harness. Non-trivial = value other than 0; distinct = (sub-space, value) fingerprints",
+		Rule:        "sub-spaces enumerated per chunk: every Date (65536) and every Date32 day 1900-01-01..2299-12-31 x fixed zones x 3 local times; DateTime boundaries+strided (quick) / all 2^32 (thorough); DateTime64 p=0..9 boundary/random instants of the documented range; wide-int From*/accessor pairs on boundary+random; IPv4 strided (quick) / all 2^32 (thorough); Interval.Add against an independent civil calendar (counts -1000..1000 in UTC; day and week counts up to the width of the 1900..2299 range; calendar days in Europe/Berlin, America/New_York and Australia/Sydney when the zone database is present); the time conversions again through the column methods (ColDateTime64 p=0..9 Append / AppendArr / Array().Append / Row with a location, ColDateTime, ColDate, ColDate32 Append / AppendArr) against arithmetic of the harness. Non-trivial = value other than 0; distinct = (sub-space, value) fingerprints",
 		Assumptions: []string{"oracle is an independent days<->civil implementation cross-checked against package time on every Date/Date32 day", "Go's time.Time arithmetic (Unix, Date, AddDate) is trusted for constructing inputs"},
 		MinDistinct: 1000,
 		Exhaustive:  func(tier string) bool { return true },
@@ -521,6 +521,60 @@ func c20(r *core.Run) {
 			}
 		}
 		r.Sample(map[string]any{"subspace": "Interval.Add", "bases": n, "scales": 8})
+	}
+	// --- Interval.Add: day / week counts up to the width of the documented range, and calendar
+	// days in zones with daylight saving (same wall clock on the target day) ---
+	if next() {
+		rng := r.Rand(0, "interval-wide")
+		var dst []*time.Location
+		for _, name := range []string{"Europe/Berlin", "America/New_York", "Australia/Sydney"} {
+			if l, err := time.LoadLocation(name); err == nil {
+				dst = append(dst, l)
+			}
+		}
+		r.Count("dst_zones_available", int64(len(dst)))
+		n := r.Pick(40000, 800000)
+		for k := 0; k < n; k++ {
+			day := -25567 + rng.Int63n(120529+25567)
+			target := -25567 + rng.Int63n(120529+25567)
+			if k%4 == 0 {
+				target = day + rng.Int63n(801) - 400
+				if target < -25567 || target > 120529 {
+					target = day
+				}
+			}
+			y, m, d := civilFromDays(day)
+			hh, mm, ss := []int{0, 4, 5, 9, 12, 17, 23}[rng.Intn(7)], rng.Intn(60), rng.Intn(60)
+			loc := time.UTC
+			if len(dst) > 0 && k%2 == 0 {
+				loc = dst[rng.Intn(len(dst))]
+			}
+			base := time.Date(int(y), time.Month(m), d, hh, mm, ss, 0, loc)
+			for _, sc := range []proto.IntervalScale{proto.IntervalDay, proto.IntervalWeek} {
+				cnt := target - day
+				if sc == proto.IntervalWeek {
+					cnt /= 7
+				}
+				wantDay := day + cnt
+				if sc == proto.IntervalWeek {
+					wantDay = day + 7*cnt
+				}
+				got := proto.Interval{Scale: sc, Value: cnt}.Add(base).In(loc)
+				r.Eval()
+				if k < 3000 {
+					r.NonTrivial("Interval-wide", int(sc), cnt, day, loc.String())
+				}
+				wy, wm, wd := civilFromDays(wantDay)
+				if got.Year() != int(wy) || int(got.Month()) != wm || got.Day() != wd || got.Hour() != hh || got.Minute() != mm || got.Second() != ss {
+					cls := "large-count"
+					if cnt > -1000 && cnt < 1000 {
+						cls = "calendar-day"
+					}
+					r.Violation("Interval.Add:"+sc.String()+":"+cls, fmt.Sprintf("Interval{%v,%d}.Add(%s) = %s, want %04d-%02d-%02d %02d:%02d:%02d in %s", sc, cnt, base.Format(time.RFC3339), got.Format(time.RFC3339), wy, wm, wd, hh, mm, ss, loc), map[string]any{"scale": int(sc), "value": cnt, "base": base.Unix(), "zone": loc.String()})
+				}
+			}
+		}
+		r.Sample(map[string]any{"subspace": "Interval.Add day/week wide counts and DST zones", "bases": n})
 	}
 }
 
